@@ -39,7 +39,7 @@ def reset_pool():
 def pooled(a):
     if a not in _POOL:
         v = a % 1000
-        obj = float(v - 300) if 300 <= v < 400 else tuple([1]) if v == 201 else None
+        obj = float(v - 300) if 300 <= v < 400 else tuple([1]) if v == 201 else float("nan") if v == 500 else None
         if obj is None:
             raise ValueError(a)
         _POOL[a] = obj
@@ -75,6 +75,8 @@ def atom(v):
         return 200
     if type(v) is tuple and v == (1,):
         return 201
+    if type(v) is float and v != v:
+        return 500                      # a NaN that is not one of the pooled objects
     if type(v) is float and v == int(v) and 0 <= v < 100:
         return 300 + int(v)
     return 999          # anything else (a value no case ever offers): a sentinel outside every finite range
